@@ -209,3 +209,21 @@ def scene(r, words, wmax=24, hmax=12):
                     g[y][x + i] = ch
                 break
     return "\n".join("".join(row).rstrip() for row in g)
+
+
+def nested_grid(r, alpha, wmax=14, hmax=8):
+    """a grid over '-|+' (and labels) with structure: two to four boxes nested in each other, the innermost interior
+    (and sometimes the rings between the boxes) filled at random from alpha"""
+    depth = r.randint(2, 4)
+    iw, ih = r.randint(1, max(wmax - 2 * depth, 1)), r.randint(1, max(hmax - 2 * depth, 1))
+    dens = r.choice([0.3, 0.6, 0.9])
+    rows = ["".join(r.choice(alpha) if r.random() < dens else " " for _ in range(iw)) for _ in range(ih)]
+    for lvl in range(depth):
+        pad = r.choice([0, 0, 1]) if lvl else 0          # sometimes a ring of free cells between two boxes
+        for _ in range(pad):
+            w = len(rows[0])
+            ring = lambda n: "".join(r.choice(alpha) if r.random() < 0.2 else " " for _ in range(n))
+            rows = [ring(w + 2)] + [ring(1) + x + ring(1) for x in rows] + [ring(w + 2)]
+        w = len(rows[0])
+        rows = ["+" + "-" * w + "+"] + ["|" + x + "|" for x in rows] + ["+" + "-" * w + "+"]
+    return "\n".join(x.rstrip() for x in rows)
